@@ -127,6 +127,9 @@ func evaluateVarRec(fv tables.FeatureVariationRecord, coords []VarCoord) bool {
 
 // returns `true` if `coords` match the condition `c`
 func evaluateCondition(c tables.ConditionFormat1, coords []VarCoord) bool {
+	if !c.IsSupported() { // "it should fail to match the condition set"
+		return false
+	}
 	var coord VarCoord
 	if int(c.AxisIndex) < len(coords) {
 		coord = coords[c.AxisIndex]
